@@ -2,3 +2,4 @@ CONSTANTS QN = 2
 Depth = 8
 SPECIFICATION Spec
 INVARIANT ShiftOK
+INVARIANT AmpOK
